@@ -491,6 +491,24 @@ impl<A: TreeApi> Sut for TreeSut<A> {
         let al = A::IW.max(A::key().1).max(A::val().1);
         (self.skew() + al) % 16
     }
+    fn preflight(&self) -> Vec<(Finding, Vec<String>)> {
+        // data_len(c) against the layout rule, before any buffer is sized with it
+        let (ks, ka, _) = A::key();
+        let (vs, va, _) = A::val();
+        let koff = align_up(4 * A::IW, ka);
+        let voff = align_up(koff + ks, va);
+        let rec = align_up(voff + vs, A::IW.max(ka).max(va));
+        let mut f = vec![];
+        for c in [0usize, 1, 2, 7, 255, 4096] {
+            let got = guarded(|| A::data_len(c));
+            let want = A::HDR + c * rec;
+            if got.as_ref().ok() != Some(&want) {
+                f.push((Finding { property: "C10", what: format!("data_len({c}) is {:?} but header + records is {want} ({})", got.ok(), A::label()) }, vec![format!("dlen {c}")]));
+                break;
+            }
+        }
+        f
+    }
     fn sessionable(&self, op: &Op) -> bool {
         !matches!(op.name, "ext" | "open" | "fill" | "dlen")
     }
@@ -526,6 +544,20 @@ impl<A: TreeApi> Sut for TreeSut<A> {
             // besides C12 (reported by the engine) a panic is a wrong answer for the operation's own property
             if op.name != "init" {
                 f.push(Finding { property: prop_of(op.name), what: format!("`{}` panicked instead of answering: {}", op.text(), out.panic.clone().unwrap()) });
+            }
+            return f;
+        }
+        if op.name == "dlen" {
+            // data_len(c) is exactly header plus c records; record size from the layout rule (repr(C):
+            // registers, key, value at their alignments), not from data_len itself
+            let (ks, ka, _) = A::key();
+            let (vs, va, _) = A::val();
+            let koff = align_up(4 * A::IW, ka);
+            let voff = align_up(koff + ks, va);
+            let rec = align_up(voff + vs, A::IW.max(ka).max(va));
+            let want = (A::HDR as u128 + op.args[0] as u128 * rec as u128).to_string();
+            if want != out.result {
+                f.push(Finding { property: "C10", what: format!("data_len({}) is {} but header + records is {}", op.args[0], out.result, want) });
             }
             return f;
         }
@@ -635,21 +667,7 @@ impl<A: TreeApi> Sut for TreeSut<A> {
                 exp.clear();
                 None
             }
-            "dlen" => {
-                // data_len(c) is exactly header plus c records (record size from two independent facts:
-                // the buffer this state lives in and its record count)
-                // record size from the layout rule (repr(C): registers, key, value at their alignments), not from data_len
-                let (ks, ka, _) = A::key();
-                let (vs, va, _) = A::val();
-                let koff = align_up(4 * A::IW, ka);
-                let voff = align_up(koff + ks, va);
-                let rec = align_up(voff + vs, A::IW.max(ka).max(va));
-                let want = (A::HDR as u128 + op.args[0] as u128 * rec as u128).to_string();
-                if want != out.result {
-                    f.push(Finding { property: "C10", what: format!("data_len({}) is {} but header + records is {}", op.args[0], out.result, want) });
-                }
-                None
-            }
+            "dlen" => None,
             _ => None,
         };
         let prop = prop_of(op.name);
